@@ -1338,6 +1338,13 @@ func main() {
 		h.chainCase(h.randomTriple())
 	}
 	phase("triples")
+	// the allocation sites that charge the budget; the CCITT reader row by row
+	h.chargeCases()
+	for i := e.Pick(1500, 30000); i > 0; i-- {
+		h.firstRow()
+		h.hostileRows()
+	}
+	phase("charge sites + ccitt rows")
 	// headers whose claimed geometry straddles the stream budget, for every component layout
 	h.headerSweep()
 	phase("header sweep")
